@@ -36,6 +36,8 @@ def hand_rewrite(h, mp: dict):
         return h
     if hasattr(h, '__supertype__'):        # a NewType stands for its supertype
         return hand_rewrite(h.__supertype__, mp)
+    if isinstance(h, T.TypeAliasType):     # a PEP 695 alias stands for its value
+        return hand_rewrite(h.__value__, mp)
     origin, args = T.get_origin(h), T.get_args(h)
     if origin is None or not args:
         return h
@@ -65,10 +67,21 @@ def explore_c18(ck: Check, n: int, seed: int) -> Explore:
     ex = Explore()
     preds = gen.pred_ids()
     default = BeartypeConf()
+    TOWER = {float: float | int, complex: complex | float | int}
     options = [
-        ('tower', BeartypeConf(is_pep484_tower=True), {float: float | int, complex: complex | float | int}),
+        ('tower', BeartypeConf(is_pep484_tower=True), TOWER),
         ('override', BeartypeConf(hint_overrides=BeartypeHintOverrides({gen.U1: gen.U1 | int, str: bytes})), {gen.U1: gen.U1 | int, str: bytes}),
         ('override-container', BeartypeConf(hint_overrides=BeartypeHintOverrides({gen.U2: list[int]})), {gen.U2: list[int]}),
+        # the two options together: the tower is merged into the user's overrides (whichever of its two entries the user
+        # already spelled out, in either operand order) — hand rewriting applies both maps
+        ('tower+override', BeartypeConf(is_pep484_tower=True, hint_overrides=BeartypeHintOverrides({gen.U1: gen.U1 | int, str: bytes})),
+         {**TOWER, gen.U1: gen.U1 | int, str: bytes}),
+        ('tower+float-spelled', BeartypeConf(is_pep484_tower=True, hint_overrides=BeartypeHintOverrides({float: float | int})), TOWER),
+        ('tower+float-reversed', BeartypeConf(is_pep484_tower=True, hint_overrides=BeartypeHintOverrides({float: int | float, gen.U2: list[int]})),
+         {**TOWER, gen.U2: list[int]}),
+        ('tower+complex-spelled', BeartypeConf(is_pep484_tower=True, hint_overrides=BeartypeHintOverrides({complex: complex | float | int})), TOWER),
+        ('tower+both-spelled', BeartypeConf(is_pep484_tower=True, hint_overrides=BeartypeHintOverrides(
+            {float: float | int, complex: complex | float | int, str: bytes})), {**TOWER, str: bytes}),
     ]
     sens = collections.Counter()
     seen = set()
@@ -156,7 +169,7 @@ def explore_c18(ck: Check, n: int, seed: int) -> Explore:
         if d2:
             ex.corr_diffs.append({'tie': 'code-level hand-rewritten vs Lean gen', **rp, 'where': str(d2)[:300]})
     ex.distinct_nontrivial = len(seen)
-    ex.rule = ('seeded hints with float/complex/overridden classes planted at every depth and container family; 3 options (numeric tower, '
+    ex.rule = ('seeded hints with float/complex/overridden classes planted at every depth and container family; 8 options (numeric tower, tower merged with user overrides that spell none / one / both of its entries, '
                'class->union override incl. self-recursive A->A|int, class->container override); each compared with the hand-rewritten hint '
                'under the default configuration: canonical generated code, is_bearable and die_if_unbearable under 3 forced draws on conforming '
                'and perturbed objects. distinct_nontrivial = distinct (rewritten hint shape, option, verdict pair) among option-SENSITIVE hints')
